@@ -85,6 +85,138 @@ def oracle_mount(cwd, keys, path, obs):
     return None
 
 
+# ------------------------------------------------------------------ two-path operations with two DIFFERENT paths
+
+TWO_ALPHA = {
+    "prop": ["", ".", "..", "a", "b", "..a", "a.."],                                  # the property's alphabet
+    "nat": ["", ".", "..", "a", "tmp", "tmpfoo", "foo", "data", "datab"],             # sibling names that extend a mount point's name
+}
+TWO_LAYOUTS = [(cwd, keys, "prop") for cwd, keys in LAYOUTS] + [
+    ("/", ["/tmp"], "nat"),                                   # /tmpfoo lies under no mount point
+    ("/", ["/", "/data"], "nat"),                             # a mount nested in the root mount
+    ("/", ["/tmp", "/tmp/foo", "/tmpfoo/a"], "nat"),          # nested + a sibling tree with its own mount
+    ("/tmp", ["/", "/tmp", "/tmp/a", "/data"], "nat"),        # relative paths from inside a nested mount
+    ("/data/a", ["/data", "/datab", "/tmp/data"], "nat"),
+]
+
+
+def alpha_strings(alpha, maxseg):
+    """the same enumeration as c13obs paths, over another segment alphabet"""
+    out = ["", "/"]
+    seqs = [[]]
+    for _ in range(maxseg):
+        seqs = [q + [a] for q in seqs for a in alpha]
+        for q in seqs:
+            j = "/".join(q)
+            for ab in ("", "/"):
+                for tr in ("", "/"):
+                    out.append(ab + j + tr)
+    return sorted(set(out))
+
+
+def oracle_lookup(cwd, keys, path):
+    """The property's reading of one lookup: (mount point with the longest component-wise prefix, components below it) or None."""
+    p = path if path.startswith("/") else (py_clean(cwd + "/" + path) if path else py_clean(cwd))
+    cp = comps(py_clean(p))
+    best = None
+    for k in keys:
+        ck = comps(k)
+        if cp[:len(ck)] == ck and (best is None or len(ck) > len(comps(best))):
+            best = k
+    if best is None:
+        return None
+    return best, cp[len(comps(best)):]
+
+
+def oracle_two(cwd, keys, p1, p2, obs, cache):
+    """both arguments resolved independently; handed to a mount only when both have the same longest mount point"""
+    for p in (p1, p2):
+        if p not in cache:
+            cache[p] = oracle_lookup(cwd, keys, p)
+    l1, l2 = cache[p1], cache[p2]
+    want = l1 is not None and l2 is not None and l1[0] == l2[0]
+    if obs == "NONE":
+        if want:
+            return "both paths lie under the mount point %r but the operation was refused" % l1[0]
+        return None
+    if not obs or obs.startswith(("DISAGREE", "MULTI", "BAD")):
+        return "Rename and Symlink do not hand the pair to one mount: %s" % obs
+    try:
+        k, r1, r2 = [bytes.fromhex(x).decode("utf-8", "replace") for x in obs.split(":")]
+    except ValueError:
+        return "unreadable observation %r" % obs
+    where = lambda l: "no mount point" if l is None else "the mount point %r (as %r)" % (l[0], "/" + "/".join(l[1]))
+    if not want:
+        return ("the operation was handed to the mount %r as (%r, %r), but the first path belongs to %s and the second path to %s: "
+                "it must be refused" % (k, r1, r2, where(l1), where(l2)))
+    if k != l1[0]:
+        return "served by the mount %r; the longest component-wise prefix of both paths is %r" % (k, l1[0])
+    if comps(r1) != l1[1] or comps(r2) != l2[1]:
+        return "handed to the mount %r as (%r, %r); the components below the mount point are %r and %r" % (k, r1, r2, l1[1], l2[1])
+    return None
+
+
+def two_pairs(rng, alpha, tier):
+    """pairs of paths: every pair of strings with <= 2 segments (thorough: second path <= 3), plus random longer ones"""
+    small = alpha_strings(alpha, 2)
+    second = small if tier == "quick" else alpha_strings(alpha, 3)
+    pairs = [(a, b) for a in small for b in second]
+    longer = alpha_strings(alpha, 3) if tier == "quick" else alpha_strings(alpha, 4)
+    for _ in range(8000 if tier == "quick" else 150000):
+        pairs.append((rng.choice(longer), rng.choice(longer)))
+    return pairs
+
+
+def tree_join(d, name):
+    if d == "":
+        return name
+    return d + name if d.endswith("/") else d + "/" + name
+
+
+def two_tree_ops(rng, cwd, keys, alpha, n):
+    """operations for the real trees: a FILE below every kind of directory path; the caller's own lookup says where it lives"""
+    dirs = alpha_strings(alpha, 2)
+    cache = {}
+    cats = {"same": [], "other-mount": [], "no-mount": []}
+    for d1 in dirs:
+        p1 = tree_join(d1, "f1.txt")
+        l1 = oracle_lookup(cwd, keys, p1)
+        if l1 is None:
+            continue
+        for d2 in dirs:
+            p2 = tree_join(d2, "f2.txt")
+            if p2 not in cache:
+                cache[p2] = oracle_lookup(cwd, keys, p2)
+            l2 = cache[p2]
+            cat = "no-mount" if l2 is None else ("same" if l2[0] == l1[0] else "other-mount")
+            cats[cat].append((p1, p2, l1, l2))
+    out = []
+    for cat, lst in sorted(cats.items()):
+        for _ in range(min(len(lst), n // 3)):
+            p1, p2, l1, l2 = lst.pop(rng.below(len(lst)))
+            out.append((rng.choice(["Rename", "Symlink"]), p1, p2, l1, l2, cat))
+    return out
+
+
+def judge_tree(op, keys, l1, l2, status, changes):
+    """every host entry the operation created / removed / changed must be the one the property allows"""
+    want = l2 is not None and l1[0] == l2[0]
+    i = keys.index(l1[0])
+    a1 = "src%d/%s" % (i, "/".join(l1[1]))
+    allowed = set()
+    if want:
+        a2 = "src%d/%s" % (keys.index(l2[0]), "/".join(l2[1]))
+        allowed = {"-" + a1, "+" + a2} if op == "Rename" else {"+%s=link->@ROOT/%s" % (a2, a1)}
+    bad = [c for c in changes if c not in allowed]
+    if bad:
+        where = lambda l: "no mount point" if l is None else "mount point %r, source tree src%d, as %r" % (l[0], keys.index(l[0]), "/".join(l[1]))
+        return ("host entries touched: %s; the first path belongs to %s, the second to %s, so the operation %s"
+                % (bad[:4], where(l1), where(l2), "may only touch %s" % sorted(allowed) if want else "must be refused and touch nothing"))
+    if want and status == "ok" and not changes:
+        return "the operation reported success but nothing changed on the host"
+    return None
+
+
 def histories(rng, n):
     """operation histories on ONE VirtualOS: Chdir between directories under different mounts (and under none),
     the same relative strings used again and again"""
@@ -336,6 +468,25 @@ def _run_body(res, tier, obs, model, work, maxseg, mount_seg, lfs_seg, nrand, pr
             futs.append(ex.submit(run_pipe, [obs, "stdin-mounts", cwd, ",".join(keys)], rnd_f, g2))
             futs.append(ex.submit(run_pipe, [model, "stdin-mounts", cwd, ",".join(keys)], rnd_f, m2))
             jobs.append(("mounts-hex", (cwd, keys), g2, m2))
+        two_jobs = []
+        for i, (cwd, keys, an) in enumerate(TWO_LAYOUTS):
+            pairs = two_pairs(rng, TWO_ALPHA[an], tier)
+            pf = os.path.join(work, "two_in_%d" % i)
+            with open(pf, "w") as f:
+                for a, b in pairs:
+                    f.write("%s %s\n" % (a.encode().hex(), b.encode().hex()))
+            g, m = os.path.join(work, "two_go_%d" % i), os.path.join(work, "two_mo_%d" % i)
+            futs.append(ex.submit(run_pipe, [obs, "two", cwd, ",".join(keys)], pf, g))
+            futs.append(ex.submit(run_pipe, [model, "stdin-two", cwd, ",".join(keys)], pf, m))
+            tops = two_tree_ops(rng, cwd, keys, TWO_ALPHA[an], 240 if tier == "quick" else 3000)
+            tf = os.path.join(work, "tree_in_%d" % i)
+            with open(tf, "w") as f:
+                for op, p1, p2, l1, l2, cat in tops:
+                    f.write("%s %s %s %d %s\n" % (op, p1.encode().hex(), p2.encode().hex(), keys.index(l1[0]), "/".join(l1[1]).encode().hex()))
+            tg = os.path.join(work, "tree_go_%d" % i)
+            names = sorted({c for k in keys for c in comps(k)} | {a for a in TWO_ALPHA[an] if a not in ("", ".", "..")})
+            futs.append(ex.submit(run_pipe, [obs, "twotree", cwd, ",".join(keys), ",".join(names)], tf, tg))
+            two_jobs.append((cwd, keys, an, pairs, g, m, tops, tg))
         nhist = 6000 if tier == "quick" else 120000
         hists = histories(rng, nhist)
         hist_f = os.path.join(work, "hist.txt")
@@ -487,6 +638,66 @@ def _run_body(res, tier, obs, model, work, maxseg, mount_seg, lfs_seg, nrand, pr
             nontrivial.add(("history", idx))
     cov["histories"] = {"count": len(hists), "uses": hist_uses, "chdirs": hist_chdirs}
 
+    # two-path operations whose two arguments differ: recording filesystems (all pairs) and real trees
+    two_stats = {"pairs": 0, "served": 0, "refused_other_mount": 0, "refused_no_mount": 0, "tree_ops": 0, "tree_moved": 0,
+                 "tree_refused": 0}
+    for cwd, keys, an, pairs, g, m, tops, tg in two_jobs:
+        go_l = open(g).read().splitlines()
+        mo_l = open(m).read().splitlines()
+        if len(go_l) != len(pairs) or len(mo_l) != len(pairs):
+            corr_diffs.append({"stage": "two", "params": (cwd, keys), "why": "answered %d (impl) / %d (model) of %d pairs"
+                               % (len(go_l), len(mo_l), len(pairs))})
+            continue
+        cache = {}
+        for (p1, p2), gl, ml in zip(pairs, go_l, mo_l):
+            evals += 1
+            gv, mv = gl.partition("\t")[2], ml.partition("\t")[2]
+            if gv != mv and len(corr_diffs) < 50:
+                corr_diffs.append({"stage": "two", "params": (cwd, keys), "input": [p1, p2], "impl": gv, "model": mv})
+            why = oracle_two(cwd, keys, p1, p2, gv, cache)
+            two_stats["pairs"] += 1
+            l1, l2 = cache[p1], cache[p2]
+            if l1 is not None and l2 is not None and l1[0] == l2[0]:
+                two_stats["served"] += 1
+                if p1 != p2:
+                    nontrivial.add(("two", tuple(keys), p1, p2))
+            elif l1 is not None and l2 is not None:
+                two_stats["refused_other_mount"] += 1
+            elif l1 is not None:
+                two_stats["refused_no_mount"] += 1
+            if why and len(oracle_viol) < 200:
+                oracle_viol.append({"stage": "two", "params": (cwd, keys), "input": [p1, p2],
+                                    "call": "VirtualOS(cwd=%r, mounts=%r).Rename / Symlink(%r, %r)" % (cwd, keys, p1, p2),
+                                    "impl": gv, "why": why})
+        tl = open(tg).read().splitlines()
+        if len(tl) != len(tops):
+            corr_diffs.append({"stage": "twotree", "params": (cwd, keys), "why": "answered %d of %d operations" % (len(tl), len(tops))})
+            continue
+        for (op, p1, p2, l1, l2, cat), line in zip(tops, tl):
+            f = line.split("\t")
+            evals += 1
+            two_stats["tree_ops"] += 1
+            if len(f) != 3:
+                corr_diffs.append({"stage": "twotree", "params": (cwd, keys), "input": [op, p1, p2], "why": "bad line " + line[:200]})
+                continue
+            changes = [c for c in bytes.fromhex(f[2]).decode("utf-8", "replace").split("\n") if c]
+            why = judge_tree(op, keys, l1, l2, f[1], changes)
+            if changes:
+                two_stats["tree_moved"] += 1
+                nontrivial.add(("twotree", tuple(keys), op, p1, p2))
+            else:
+                two_stats["tree_refused"] += 1
+            if why:
+                oracle_viol.append({"stage": "twotree", "params": (cwd, keys), "input": [op, p1, p2], "ops_line": line.split("\t")[0],
+                                    "names": sorted({c for k in keys for c in comps(k)} | {a for a in TWO_ALPHA[an] if a not in ("", ".", "..")}),
+                                    "call": "VirtualOS(cwd=%r, mounts=%r over real trees src0..src%d).%s(%r, %r)"
+                                            % (cwd, keys, len(keys) - 1, op, p1, p2),
+                                    "impl": {"status": f[1], "host_changes": changes}, "why": why})
+    cov["two_path"] = two_stats
+    if two_jobs:
+        samples.append({"stage": "two", "params": two_jobs[6][:2], "pair": two_jobs[6][3][1234],
+                        "impl": open(two_jobs[6][4]).read().splitlines()[1234].partition("\t")[2]})
+
     lfs_viol = []
     lfs_summary = ""
     for line in open(lfs_out, "rb"):
@@ -513,6 +724,14 @@ def _run_body(res, tier, obs, model, work, maxseg, mount_seg, lfs_seg, nrand, pr
                    "for %d bases and, with <= %d segments (%d strings), through every single- and two-path method of VirtualOS "
                    "over %d mount layouts with recording filesystems; %d seeded random Unicode/byte paths through both; "
                    "%d operation histories on one VirtualOS (Chdir between mounts, the same relative strings reused); "
+                   "TWO-path operations (Rename, Symlink) with two DIFFERENT arguments: %d pairs over %d layouts (the property's "
+                   "alphabet and one with sibling names that extend a mount point's name - tmp / tmpfoo, data / datab -, mounts "
+                   "nested in the first path's mount, relative paths from inside a nested mount; every pair of strings with <= 2 "
+                   "segments plus random longer ones) on recording filesystems: each argument must be resolved on its own by the "
+                   "longest component-wise mount prefix and the pair handed to ONE mount or refused (model: mount_two); and %d such "
+                   "operations on a VirtualOS whose mounts are rooted filesystems over REAL directory trees (a skeleton of "
+                   "directories in every source so that a wrongly resolved path lands): every host entry created / removed must be "
+                   "the one the property allows; "
                    "every localfs method over a temp tree with sentinels outside the base (<= %d segments); %d histories of localfs "
                    "operations on a real tree (every two-link chain over a small alphabet, random histories of Mkdir / Symlink / "
                    "Rename / reads / writes / removes with paths that walk through links made earlier): after every operation every "
@@ -521,7 +740,8 @@ def _run_body(res, tier, obs, model, work, maxseg, mount_seg, lfs_seg, nrand, pr
                    "resolve_path of the first argument; each output compared "
                    "with the extracted Gallina model and judged by an independent Python oracle. Non-trivial = distinct inputs "
                    "containing '..' that resolve, or that are served by some mount." % (
-                       maxseg, npaths, len(BASES), mount_seg, npaths_m, len(LAYOUTS), len(rnd), len(hists), lfs_seg, len(lfs_h)))
+                       maxseg, npaths, len(BASES), mount_seg, npaths_m, len(LAYOUTS), len(rnd), len(hists),
+                       two_stats["pairs"], len(TWO_LAYOUTS), two_stats["tree_ops"], lfs_seg, len(lfs_h)))
     cov["exhaustive"] = True
     cov["samples"] = samples
     cov["correspondence"] = {"cases": evals - lfs_evals, "differences": len(corr_diffs),
@@ -536,7 +756,16 @@ def _run_body(res, tier, obs, model, work, maxseg, mount_seg, lfs_seg, nrand, pr
         "kernel path resolution is modelled by the harness's component-by-component resolver (physical) and by PhysLinks.v",
     ]
 
-    # 6. decide
+    # 6. decide (the reported sample takes failing inputs of every stage in turn)
+    seen_per_stage = {}
+    order = []
+    for idx, v in enumerate(oracle_viol):
+        k = seen_per_stage.get(v.get("stage"), 0)
+        seen_per_stage[v.get("stage")] = k + 1
+        order.append((k, idx))
+    oracle_viol = [oracle_viol[i] for _, i in sorted(order)]
+    if oracle_viol:
+        cov["oracle_violations_by_stage"] = seen_per_stage
     for v in oracle_viol[:10]:
         v.update({"property": PROP, "kind": "oracle-violation",
                   "replay_cmd": "build/bin/c13obs (see stage/params/input)"})
@@ -570,6 +799,18 @@ def replay(data):
     elif st == "lfshist":
         rc, o, e = C.run([obs, "lfshist"], input=(";".join(data["ops"]) + "\n").encode())
         print(o, e)
+    elif st == "two":
+        a, b = data["input"]
+        rc, o, e = C.run([obs, "two", data["params"][0], ",".join(data["params"][1])],
+                         input=("%s %s\n" % (a.encode().hex(), b.encode().hex())).encode())
+        print(o, e)
+    elif st == "twotree":
+        rc, o, e = C.run([obs, "twotree", data["params"][0], ",".join(data["params"][1]), ",".join(data["names"])],
+                         input=(data["ops_line"] + "\n").encode())
+        for line in o.splitlines():
+            f = line.split("\t")
+            print(f[:2], bytes.fromhex(f[2]).decode("utf-8", "replace").split("\n") if len(f) > 2 else "")
+        print(e)
     elif st in ("mounts", "mounts-hex"):
         inp = data["input"] if st == "mounts-hex" else data["input"].encode("utf-8", "surrogateescape").hex()
         rc, o, e = C.run([obs, "stdin-mounts", data["params"][0], ",".join(data["params"][1])], input=(inp + "\n").encode())
